@@ -62,14 +62,26 @@ func (s *byteStreamServer) Read(in *bytestream.ReadRequest, out bytestream.ByteS
 		}
 
 	case remoteexecution.Compressor_ZSTD:
-		b := s.blobAccess.Get(ctx, digest)
+		// The read offset refers to the uncompressed object.
+		r := s.blobAccess.Get(ctx, digest).ToChunkReader(in.ReadOffset, s.readChunkSize)
+		defer r.Close()
 		encoder, err := s.zstdPool.NewEncoder(ctx, &readStreamWriter{out: out})
 		if err != nil {
-			b.Discard()
 			return status.Errorf(codes.ResourceExhausted, "Failed to acquire ZSTD encoder: %v", err)
 		}
 		defer encoder.Close()
-		return b.IntoWriter(encoder)
+		for {
+			readBuf, readErr := r.Read()
+			if readErr == io.EOF {
+				return nil
+			}
+			if readErr != nil {
+				return readErr
+			}
+			if _, writeErr := encoder.Write(readBuf); writeErr != nil {
+				return writeErr
+			}
+		}
 	default:
 		return status.Errorf(codes.Unimplemented, "This service does not support downloading compression type: %s", compressor)
 	}
